@@ -255,7 +255,9 @@ class SimProcess:
         root = logging.getLogger()
         self._saved_log = (root.handlers[:], root.level, logging.root.disabled)
         root.handlers[:] = [self.log]
-        root.setLevel(logging.INFO)
+        # the capture handler keeps INFO and above; the root level itself is a knob (a host application, or `-l DEBUG`,
+        # may run netconan with debug logging on: the output must not depend on it)
+        root.setLevel(getattr(logging, str(self.knobs.get("log_level") or "INFO")))
         self._saved_rand = random.getstate()
         if self._rand_state is None:
             random.seed(self.knobs.get("rand_seed", 0))
